@@ -21,7 +21,20 @@ RULE = ("correspondence: the same (config, blocks, PRNG draws) is run through th
         "search: random walks over updates proposed by the real code (real PRNG behind a call budget), every proposed update applied and the "
         "result checked by an independent invariant checker (Counter of cells, own flood fill, own bound defaulting); purity half (TEST, not a "
         "theorem): deep-copy the value, apply, mutate every list reachable from the result, compare the value with its copy.  A case is "
-        "non-trivial when it is a distinct (kind, config, blocks, draws/update) tuple.")
+        "non-trivial when it is a distinct (kind, config, blocks, draws/update) tuple.  "
+        "Hardened input classes (harness/c18_shapes.py builds the shapes from first principles): correspondence also over _is_connected on ALL "
+        "cell subsets of 3x4 (every excluded cell) and 4x4 (every cell for blocks with holes and in thorough, sampled cells otherwise) and sampled 5x5; "
+        "split_block on all subsets of 3x3 x all ordered seed pairs, all subsets of 3x4, all connected subsets of 4x4, carved / ring / catalogue "
+        "blocks up to 7x7; candidates / copy_with_update on partitions built around rings with tails, blocks with holes, carved non-convex "
+        "blocks of every size >= 16 (or half the board) and snake / spiral / comb / U / C / frame shapes on 3x5 .. 7x7; one builder called on "
+        "values A, B, A, A with every returned list scrambled in between (each call = the stateless model); copy_with_update twice on the same "
+        "objects with arguments compared to deep copies; bounds, block counts and block sizes above 256 as run-time int objects (1x270, 2x135, "
+        "16x17 boards); constructor call forms (all keywords / None omitted / positional / mixed).  Search also: every connected cell set of "
+        "3x4 / 4x3 / (holes + sample, thorough: all) 4x4 as a block with the complement's components as the other blocks, the targeted shapes "
+        "on 3x5 .. 7x7, >256-block and >256-cell states, each proposed update applied for real when an independent local test of the update "
+        "(appended blocks connected, same cells as the excluded blocks, bounds) fails or for a sample, and TEST(purity/history): value unchanged "
+        "after candidates() and after scrambling what it returned, same proposals on a second call with the same draws, update unchanged by "
+        "apply, same value from applying twice, initial_blocks neither modified nor aliased by initial().")
 TRUSTED = [
     "reading of the property: 'proposed updates' = elements of candidates(value); 'applying' = copy_with_update; values = lists of lists of (y, x) tuples; "
     "the bound configuration is the one stored by __init__ (None/0 mean default); allow_unmet_constraints_first=False for the claim about initial()",
@@ -1254,6 +1267,13 @@ def search_purity(ctx):
         h, w = rng.choice([(1, 4), (2, 2), (2, 3), (3, 3), (3, 4), (4, 4), (4, 5), (5, 5)])
         blocks = rand_partition(rng, h, w, rng.randint(1, h * w))
         cfg = rng.choice(tight_cfgs(h, w, blocks))
+        purity_case(ctx, cfg, blocks, it)
+
+
+def purity_case(ctx, cfg, blocks, it):
+    rng = ctx.rng
+    h, w = cfg[0], cfg[1]
+    for _once in (0,):
         where = "purity"
         detail = {"cfg": list(cfg), "value": copy.deepcopy(blocks), "where": where}
         key0 = "%dx%d" % (h, w)
@@ -1348,6 +1368,20 @@ def replay(ctx, rp):
         return 0
     cfg = tuple(v["cfg"])
     tup = lambda bs: [[tuple(c) for c in b] for b in bs]  # noqa
+    if v.get("where") == "purity" and "value" in v:
+        sub = vlib.Ctx("C18", "quick", rp.get("seed", 0))
+        for it in range(6):
+            purity_case(sub, cfg[:6] + (False,), tup(v["value"]), it)
+        for x in sub.violations:
+            print("still failing:", x["key"], x["what"])
+        return 1 if sub.violations else 0
+    if "update" not in v and "value" in v and "result" not in v:
+        sub = vlib.Ctx("C18", "quick", rp.get("seed", 0))
+        for _ in range(5):
+            probe_state(sub, cfg, tup(v["value"]), "replay", calls=2, full=4, fresh=True)
+        for x in sub.violations:
+            print("still failing:", x["key"], x["what"])
+        return 1 if sub.violations else 0
     if "update" not in v:
         if "result" in v:
             return 1 if inv_failure(cfg, tup(v["result"])) else 0
